@@ -513,6 +513,10 @@ FSHAPES_FULL = [
     ("#[f-x[{!a}]]f-x]", 1, lambda a: ("fstr", None, "f-x", (F(a, conv="a"), T("]", "]")))),
     ("f{;c}", 1, lambda a: ("fstr", "f", None, (F(a, junk=(("cmt", "c"),)),))),
     ("f{}{}", 2, lambda a, b: ("fstr", "f", None, (F(a), F(b)))),
+    # literal text directly followed by a `=` field (the reader joins the text with the field's "expr = " prefix),
+    # after a leading replacement field / inside a nested format spec
+    ("f{}b{=}", 2, lambda a, b: ("fstr", "f", None, (F(a), T("b"), F(b, debug=True)))),
+    ("f{:a{=}}", 2, lambda a, b: ("fstr", "f", None, (F(a, spec=(T("a"), F(b, debug=True))),))),
     ("f{:{}}", 2, lambda a, b: ("fstr", "f", None, (F(a, spec=(F(b),)),))),
     ("f{!r:>{}x}", 2, lambda a, b: ("fstr", "f", None, (F(a, conv="r", spec=(T(">"), F(b), T("x"))),))),
 ]
